@@ -78,10 +78,20 @@ def run_item(item):
                         data = [Points(torch.arange(N, dtype=torch.float32).reshape(N, 1) + 1000.0 * j, Space({"v%d" % j: 1}))
                                 for j in range(ntens)]
                         try:
-                            with Seam({0: sh} if sh is not None else {}):
+                            # later permutation draws (there must be none: the data set is shuffled ONCE, at construction)
+                            # would be answered by a rotation, so a re-shuffle per pass changes the order
+                            with Seam(dict([(0, sh)] + [(j_, "ROT") for j_ in range(1, 6)]) if sh is not None else {}) as sm_:
                                 ld = PointsDataLoader(tuple(data) if ntens > 1 else data[0], batch_size=bs, shuffle=sh is not None, drop_last=drop)
                                 batches = [b for b in ld]
                                 ln = len(ld)
+                                second = [b for b in ld]
+                            draws = sum(1 for c_ in sm_.calls if c_[0] == "randperm")
+                            first_ids = [x for b in batches for x in b[0].as_tensor[:, 0].tolist()]
+                            second_ids = [x for b in second for x in b[0].as_tensor[:, 0].tolist()]
+                            if first_ids != second_ids or draws > (1 if sh is not None else 0):
+                                viol("C16|points|reshuffled-per-pass", "%s: a second pass over the loader shows the order %s after %s (%d permutation draw(s) in total)" % (
+                                    cfg, second_ids, first_ids, draws))
+                                continue
                         except Exception as e:
                             viol("C16|points|error|%s" % type(e).__name__, "%s raised %s: %s" % (cfg, type(e).__name__, str(e)[:100]))
                             continue
